@@ -1,5 +1,7 @@
 import Cherab.Drv.Proto
 import Cherab.Model.PassiveEmission
+import Cherab.Model.BremsConfig
+import Cherab.Gen.BremsFlags
 import Cherab.Gen.Constants
 import Cherab.Gen.PassiveFlags
 open Cherab.Drv Cherab.Passive
@@ -49,6 +51,34 @@ def bremsC (pi : Float) : Float :=
     Constants.SPEED_OF_LIGHT
 
 def expF : Float := expFactor Constants.PLANCK_CONSTANT Constants.SPEED_OF_LIGHT Constants.ELEMENTARY_CHARGE
+
+/-! round 6: `gsel p a g op…` — the Gaunt-factor selection machine (`Model/BremsConfig.lean`).
+`p` 0/1, `a`/`g` 0 = None else identifier; ops `G<k>` `A<k>` `P` `C` `E`; the emission guard is the one read from the source (`Gen/BremsFlags.lean`); one token `out:gaunt:user:loaded` per op. -/
+def optId (s : String) : Option Nat := if pN s == 0 then none else some (pN s)
+
+def parseCfgOp (t : String) : Option BremsOp :=
+  match t.toList with
+  | 'G' :: r => some (.setGaunt (optId (String.mk r)))
+  | 'A' :: r => some (.setAtomic (optId (String.mk r)))
+  | ['P'] => some .setPlasma
+  | ['C'] => some .change
+  | ['E'] => some .eval
+  | _ => none
+
+def srcTok : Option GauntSrc → String
+  | none => "-"
+  | some (.user g) => s!"u{g}"
+  | some (.provider a) => s!"p{a}"
+
+def outTok : BremsOut → String
+  | .silent => "ok"
+  | .errNoPlasma => "np"
+  | .errNoAtomic => "na"
+  | .used g => srcTok (some g)
+  | .nullDeref => "null"
+
+def cfgTok (r : BremsCfg × BremsOut) : String :=
+  s!"{outTok r.2}:{srcTok r.1.gaunt}:{if r.1.userProvided then 1 else 0}:{if r.1.loaded then 1 else 0}"
 
 abbrev Rules := List (List (Float × Float))
 
@@ -101,6 +131,10 @@ def step (rules : Rules) (ts : List String) : Rules × String :=
         Constants.EULER_GAMMA Constants.RYDBERG_CONSTANT_EV ph (pF umin) (pF umax) (pF g2min) (pF g2max)
         (pF z) (pF te) (pF wvl)
       (rules, s!"{br} {fF v}")
+  | "gsel" :: p :: a :: g :: ops =>
+      (match ops.mapM parseCfgOp with
+       | none => (rules, "bad-op")
+       | some os => (rules, " ".intercalate ((cfgTrace BremsFlags.emissionGuardTestsGaunt (cfgInit (pN p == 1) (optId a) (optId g)) os).map cfgTok)))
   | ["radfn", pi, phi, mn, mx] => (rules, fF (radiationFunction (pF pi) (pF phi) (pF mn) (pF mx)))
   | ["consts", pi] => (rules, fFs [bremsC (pF pi), expF, recip4pi (pF pi)])
   | _ => (rules, "bad-op")
